@@ -570,9 +570,11 @@ ApplySel(sel, n, r) ==
          ELSE <<>>
     [] sel[1] = "filter" -> FilterKids(sel[2], Kids(n), 1, r) \o UOIf(v)
     [] sel[1] = "path" ->      \* [data] union.json "JSONPath union of multiple different paths": a non-empty path relative
-                               \* to the current node (@.x, @[i]...) as a union member.  An absolute path ($...) or a bare @ as
-                               \* a member is mentioned by neither [doc] nor [data]: don't care.
-         IF sel[2] = "cur" /\ sel[3] # <<>> THEN EvalSegs(sel[3], <<n>>, r) ELSE <<DCMark>>
+                               \* to the current node (@.x, @[i]...) as a union member.  An absolute path ($.x...) as a member is in
+                               \* neither [doc] nor [data], but the compiler accepts it and "$" has one meaning everywhere (the root
+                               \* value, [rfc] 2.2): its nodes are those of the path evaluated from the root, under their own
+                               \* normalized paths - whatever the current node is.  A bare @ or $ as a member: don't care.
+         IF sel[3] # <<>> THEN EvalSegs(sel[3], <<IF sel[2] = "cur" THEN n ELSE MkNode(<<>>, r)>>, r) ELSE <<DCMark>>
 
 (* [rfc] 2.5.1.2: the child segment concatenates the results of its selectors in order *)
 ApplySels(sels, i, n, r) == IF i > Len(sels) THEN <<>> ELSE ApplySel(sels[i], n, r) \o ApplySels(sels, i + 1, n, r)
